@@ -3,6 +3,8 @@ package main
 import (
 	"go/ast"
 	"go/token"
+	"os"
+	"path/filepath"
 	"strings"
 )
 
@@ -261,4 +263,63 @@ func extractC05(c *Ctx) {
 		})
 	}
 	c.Add("c05Timeouts", "List String", LeanStrList(touts), src, "context.WithTimeout calls of the reflection client and the timeout passed by the resolver")
+
+	// package-level variables of bridgedesc and reflection (non-test files without the verif tag): the resolver's
+	// projection must not keep state between resolutions, so no map / sync.Map / sync.Pool / channel / slice-of-state
+	// may live at package level.  Rendered as "<pkg>/<file>: <name> <type or initialiser>".
+	vars := []string{}
+	src = ""
+	for _, dir := range []string{"bridgedesc", "reflection"} {
+		ents, err := os.ReadDir(filepath.Join(c.Repo, dir))
+		if err != nil {
+			continue
+		}
+		for _, e := range ents {
+			n := e.Name()
+			if e.IsDir() || !strings.HasSuffix(n, ".go") || strings.HasSuffix(n, "_test.go") {
+				continue
+			}
+			f := c.File(dir + "/" + n)
+			if f == nil {
+				continue
+			}
+			tagged := false
+			for _, cg := range f.Comments {
+				for _, cm := range cg.List {
+					if cm.Pos() < f.Package && strings.HasPrefix(cm.Text, "//go:build") && strings.Contains(cm.Text, "verif") {
+						tagged = true
+					}
+				}
+			}
+			if tagged {
+				continue
+			}
+			for _, d := range f.Decls {
+				gd, ok := d.(*ast.GenDecl)
+				if !ok || gd.Tok != token.VAR {
+					continue
+				}
+				for _, sp := range gd.Specs {
+					vs := sp.(*ast.ValueSpec)
+					for i, nm := range vs.Names {
+						desc := ""
+						if vs.Type != nil {
+							desc = strings.Join(strings.Fields(c.Src(vs.Type)), " ")
+						} else if i < len(vs.Values) {
+							v := strings.Join(strings.Fields(c.Src(vs.Values[i])), " ")
+							if k := strings.IndexAny(v, "{("); k > 0 {
+								v = v[:k]
+							}
+							desc = ":= " + v
+						}
+						if src == "" {
+							src = c.Pos(vs)
+						}
+						vars = append(vars, dir+"/"+n+": "+nm.Name+" "+desc)
+					}
+				}
+			}
+		}
+	}
+	c.Add("c05PackageVars", "List String", LeanStrList(vars), src, "package-level vars of bridgedesc and reflection")
 }
